@@ -19,7 +19,9 @@ particular oracles (`scriptOracle`, `failAt`), so the statements cover them.
   of Canto's state changes; for external contracts there is no `Approval` log;
 * `roundtrip_coin_token_coin`, `roundtrip_token_coin_token` — with the honest token, converting an
   amount and converting it back (receiver and sender swapped) restores both ledgers exactly, for
-  both kinds of pair and both orders;
+  both kinds of pair and both orders (no side condition on the denomination: since the repair of
+  finding E1 a successful `ConvertCoin` implies that the denomination is not of hex-address form,
+  hence that the coin moved is the pair's own);
 * `external_sender_debit_unchecked` — **the stated limit**: for an external *adversarial* token the
   keeper checks only the escrow side (`balanceOf(module)` before/after), so "debits the sender
   exactly" is not enforceable from outside the contract; the witness is a token that credits the
@@ -79,13 +81,14 @@ theorem convertCoin_success_paths {env : Env} {O : Oracle σ} {w w' : World σ} 
     ∃ p, msgPair w.st (.convertCoin m) = some p ∧ m.sender.form ≠ .bad ∧ m.receiver.valid = true ∧ 0 < m.amount ∧
       p.enabled = true ∧ (O (.code p.addr) w.evm).1.ret = some 1 ∧
       coinPath env O p m.denom.s m.amount.toNat m.receiver.bytes m.sender.bytes
-        { w with evm := (O (.code p.addr) w.evm).2 } = .ok (w', .converted) := by
+        { w with evm := (O (.code p.addr) w.evm).2 } = .ok (w', .converted) ∧
+      isHexAddress m.denom.s = false := by
   obtain ⟨F⟩ := convertCoin_ok (by simpa [step] using h)
   obtain ⟨_, ⟨i, hi, hp⟩, g2, _⟩ := gate_ok F.hGate
   obtain ⟨e1, f1⟩ := AddrStr.decode_ok F.hSender
   obtain ⟨e2, f2⟩ := HexStr.decode_ok F.hReceiver
   rcases afterGate_ok F.hRest with ⟨hc, hpath⟩ | ⟨_, _, hr⟩
-  · refine ⟨F.p, by simp [msgPair, Registry.lookupTok, hi, hp], f1, f2, F.hAmt, g2, hc, ?_⟩
+  · refine ⟨F.p, by simp [msgPair, Registry.lookupTok, hi, hp], f1, f2, F.hAmt, g2, hc, ?_, F.hNotHex⟩
     rw [← e1, ← e2]; exact hpath
   · cases hr
 
@@ -267,14 +270,14 @@ converts `a` tokens back for the original sender: every bank balance, every supp
 balance and every token supply is exactly what it was — for chain-deployed and for external
 contracts alike. -/
 theorem roundtrip_coin_token_coin {w0 w1 w2 : World TState} {m1 : MsgConvertCoin} {m2 : MsgConvertERC20}
-    (hI : RegInv w0.st.reg) (hx : isHexAddress m1.denom.s = false)
+    (hI : RegInv w0.st.reg)
     (h1 : step env (honest cfg) w0 (.convertCoin m1) = .ok (w1, .converted))
     (h2 : step env (honest cfg) w1 (.convertERC20 m2) = .ok (w2, .converted))
     (hpair : msgPair w1.st (.convertERC20 m2) = msgPair w0.st (.convertCoin m1))
     (hamt : m2.amount = m1.amount) (hs : m2.sender.bytes = m1.receiver.bytes) (hr : m2.receiver.bytes = m1.sender.bytes) :
     (∀ x d, w2.st.bank.get x d = w0.st.bank.get x d) ∧ (∀ d, w2.st.bank.supply d = w0.st.bank.supply d) ∧
     w0.evm.same w2.evm ∧ sameCore w0.st w2.st := by
-  obtain ⟨p, hp1, _, _, _, _, _, path1⟩ := convertCoin_success_paths h1
+  obtain ⟨p, hp1, _, _, _, _, _, path1, hx⟩ := convertCoin_success_paths h1
   obtain ⟨p2, hp2, _, _, _, _, _, path2⟩ := convertERC20_success_paths h2
   rw [hpair, hp1] at hp2; injection hp2 with hp2; subst hp2
   have hd := msgPair_denom hI hx hp1
@@ -369,7 +372,7 @@ theorem roundtrip_coin_token_coin {w0 w1 w2 : World TState} {m1 : MsgConvertCoin
 /-- **roundtrip_identity (token → coin → token).**  `S` converts `a` tokens to coins for `R`, then
 `R` converts `a` coins back to tokens for `S`: both ledgers are exactly what they were. -/
 theorem roundtrip_token_coin_token {w0 w1 w2 : World TState} {m1 : MsgConvertERC20} {m2 : MsgConvertCoin}
-    (hI : RegInv w0.st.reg) (hx : isHexAddress m2.denom.s = false)
+    (hI : RegInv w0.st.reg)
     (h1 : step env (honest cfg) w0 (.convertERC20 m1) = .ok (w1, .converted))
     (h2 : step env (honest cfg) w1 (.convertCoin m2) = .ok (w2, .converted))
     (hpair : msgPair w1.st (.convertCoin m2) = msgPair w0.st (.convertERC20 m1))
@@ -377,7 +380,7 @@ theorem roundtrip_token_coin_token {w0 w1 w2 : World TState} {m1 : MsgConvertERC
     (∀ x d, w2.st.bank.get x d = w0.st.bank.get x d) ∧ (∀ d, w2.st.bank.supply d = w0.st.bank.supply d) ∧
     w0.evm.same w2.evm ∧ sameCore w0.st w2.st := by
   obtain ⟨p, hp1, _, _, _, _, _, path1⟩ := convertERC20_success_paths h1
-  obtain ⟨p2, hp2, _, _, _, _, _, path2⟩ := convertCoin_success_paths h2
+  obtain ⟨p2, hp2, _, _, _, _, _, path2, hx⟩ := convertCoin_success_paths h2
   have hreg : w1.st.reg = w0.st.reg := by
     obtain ⟨b, hb, _⟩ := erc20Path_frame path1
     rw [hb]
